@@ -100,6 +100,10 @@ def model(prog, parsed, script, fname):
                     stats['previous_at_start'] += 1
             elif c in ('run', 'r'):
                 stats['run'] += 1
+                if not bps:
+                    stats['run_with_no_breakpoint_set'] = stats.get('run_with_no_breakpoint_set', 0) + 1
+                    if len(hist) > 1:
+                        stats['run_with_no_breakpoint_after_steps'] = stats.get('run_with_no_breakpoint_after_steps', 0) + 1
                 s0 = stats['steps']
                 step(ev)
                 while hist[-1][1] < n and hist[-1][1] not in bps:
@@ -196,6 +200,14 @@ def gen_script(rng, n, deep=False):
     if deep:
         # long run / long stepping, then a long chain of back-steps, then look and continue
         out = []
+        if rng.random() < 0.25:
+            # step into the loop, remove the only breakpoint, then run with NO breakpoint set: must run to the end
+            out += [rng.choice(['n', 'n', 'r'])] * rng.randint(1, 9)
+            out += ['b 0']
+            if rng.random() < 0.3:
+                out += ['b', 's']
+            out += ['r', 's', 'n']
+            return out
         nback = rng.choice([1, 5, 30, 63, 64, 65, 70, 100, 130, rng.randint(1, 160)])
         if rng.random() < 0.6:
             # a breakpoint on the tail behind the loop: ONE `run` executes the whole loop and stops there
@@ -367,5 +379,6 @@ def main(tier, seed):
                'run stopped by breakpoint': (hist.get('run_stop_breakpoint', 0), 30),
                'sessions with >= 64 consecutive back-steps': (hist.get('sessions_with_back_chain>=64', 0), 10),
                'sessions with a run of >= 64 steps': (hist.get('sessions_with_run>=64_steps', 0), 10),
-               'long run stopped at breakpoint then >= 64 back-steps': (hist.get('sessions_long_run_stopped_then_>=64_back', 0), 5)}
+               'long run stopped at breakpoint then >= 64 back-steps': (hist.get('sessions_long_run_stopped_then_>=64_back', 0), 5),
+               'run with no breakpoint set, after some steps': (hist.get('run_with_no_breakpoint_after_steps', 0), 10)}
     return rep.finish(cov, assumptions, t0, minimum)
